@@ -488,7 +488,15 @@ class Executor:
             if attr == '__class__':
                 if obj.cls is not None:
                     return obj.cls
-                raise Unsupported('__class__ of object with unknown class')
+                # the class of an object of unknown class: an opaque class object; only its __name__ / __qualname__ (unknown texts) can be read
+                k = SymObj(None, f'type({obj.label})', prov='fresh')
+                k.known_not_none = True
+                k.closed = True
+                k.fields['__name__'] = SymVal('str', z3.String(self.fresh_name(f'{obj.label}.__class__.__name__')))
+                k.fields['__qualname__'] = k.fields['__name__']
+                obj.fields['__class__'] = k
+                self.push_undo(lambda: obj.fields.pop('__class__', None))
+                return k
             if attr == '__dict__':
                 return obj.fields
             if obj.cls_set is not None:
